@@ -345,3 +345,39 @@ package derive
 //@ loop 4: invariant forall q string :: ((q in fs) <==> (q in old(fs))) && (isDerivedFile(q) ==> fs[q] == old(fs)[q])
 //@ loop 5: invariant pkg != nil && pkg.plugins == plugins && pkg.generators == generators && pkg.printer == printer
 //@ loop 5: invariant (!autoname && !dedup) ==> !changed
+
+// program: plugins are sorted (established by NewPlugins, kept by Load)
+//@ inv program: forall a int, b int :: 0 <= a && a < b && b < len(self.plugins) ==> !before(self.plugins[b], self.plugins[a])
+//@ inv program: forall k int :: 0 <= k && k < len(self.plugins) ==> self.plugins[k] != nil
+//@ inv program: self.program != nil
+
+// Writing generated code touches only generator-internal state (printer, type tables).
+//@ func (pkg *pkg) Generate() (generated bool, err error)
+//@ assigns any derive.printer.hasContent, any derive.printer.indent, any derive.printer.w, any derive.printer.imports, any derive.typesMap.generated, any derive.typesMap.funcToTyps, any derive.typesMap.typss
+
+//@ extern func sort.Strings(x []string) ()
+//@ assigns nothing
+//@ mutates-arg: x
+//@ ensures len(final(x)) == len(x)
+
+//@ func load(paths []string) (r *loader.Program, err error)
+//@ assigns nothing
+//@ ensures err == nil ==> r != nil
+
+//@ extern func (p *loader.Program) Package(path string) (r *loader.PackageInfo)
+//@ pure
+//@ reads-heap
+//@ ensures r != nil && r.Pkg != nil
+
+//@ func (pg *program) generatePackage(pkgInfo *loader.PackageInfo) (err error)
+//@ assigns fs, foff, handledBy, synced, any ast.CallExpr.Fun, any derive.printer.hasContent, any derive.printer.indent, any derive.printer.w, any derive.printer.imports, any derive.typesMap.generated, any derive.typesMap.funcToTyps, any derive.typesMap.typss
+//@ requires pkgInfo != nil && pkgInfo.Pkg != nil
+//@ ensures [derived-file-synced] err == nil ==> synced
+//@ ensures [user-files-intact] (!pg.autoname && !pg.dedup) ==> forall q string :: !isDerivedFile(q) ==> ((q in fs) <==> (q in old(fs))) && fs[q] == old(fs)[q]
+//@ ensures [only-derived-file-created-or-deleted] forall q string :: !isDerivedFile(q) ==> ((q in fs) <==> (q in old(fs)))
+//@ assert-at-call derive.pkg.Print: derive.pkg.HasContent(pkgGen)
+//@ assert-at-call derive.pkg.Delete: !derive.pkg.HasContent(pkgGen)
+//@ loop 1: invariant thisprogram != nil && pkgInfo != nil && pkgInfo.Pkg != nil
+//@ loop 1: invariant !generated ==> synced
+//@ loop 1: invariant (!pg.autoname && !pg.dedup) ==> forall q string :: !isDerivedFile(q) ==> ((q in fs) <==> (q in old(fs))) && fs[q] == old(fs)[q]
+//@ loop 1: invariant forall q string :: !isDerivedFile(q) ==> ((q in fs) <==> (q in old(fs)))
